@@ -142,6 +142,19 @@ def stop_data_condition(ck, rule):
     ck.need(rule, n >= 3, f"only {n} uses of self._stop_data as final-run data found (3 expected)")
 
 
+def dispatch_handler_asts(ev):
+    """The except clauses of the `try` that contains the handler dispatch of SBlock.event (the function has
+    other try statements: the guard's try/finally, the early initialisation's own try)."""
+    res = []
+    for t in ast.walk(ev.node):
+        if isinstance(t, ast.Try) and t.handlers and any(
+                isinstance(x, ast.Call) and (call_name(x) == '_event' or
+                                             (isinstance(x.func, ast.Name) and x.func.id == 'handler'))
+                for st in t.body for x in ast.walk(st) if not isinstance(st, ast.Try)):
+            res = t.handlers            # innermost wins (ast.walk is breadth-first: later = deeper)
+    return list(res)
+
+
 def unknown_event_not_fatal(ck, rule, construct_suffix='unknown event not fatal'):
     """SBlock.event: an EdzedUnknownEvent raised by the handler is re-raised as it is and never
     reaches abort().  Two spellings are recognised: an own `except EdzedUnknownEvent: raise` clause
@@ -149,7 +162,8 @@ def unknown_event_not_fatal(ck, rule, construct_suffix='unknown event not fatal'
     `isinstance(<err>, EdzedUnknownEvent)` on whose failed outcome every path to abort() lies."""
     ev = ck.prog.func('block:SBlock.event')
     g = ck.cfg(ev.fid, 'M1')
-    hs = [n for n in g.nodes if n.kind == 'handler' and g.pred[n.id]]
+    dh_ = dispatch_handler_asts(ev)
+    hs = [n for n in g.nodes if n.kind == 'handler' and g.pred[n.id] and (not dh_ or n.ast in dh_)]
     gen = [h for h in hs if handler_types(h.ast) == ['Exception']]
     unk = [h for h in hs if handler_types(h.ast) == ['EdzedUnknownEvent']]
     aborts = nodes_where(g, lambda n: any(call_name(c) == 'abort' for c in node_calls(n)))
